@@ -41,6 +41,7 @@ CONDS = {
     "meth": lambda k: ("t", ("c", X, "is_p", (k,))),
     "notpf": lambda k: ("not", ("pf", "p_eq", (X, L(k)))),
     "pfnested": lambda k: ("pf", "p_eq_nested", (X, L(k))),
+    "pfinner": lambda k: ("pf", "p_eq_inner", (X, L(k))),        # evaluates a query of its own, in a block of its own
     "notpc": lambda k: ("not", ("pc", "PEq", (X, L(k)))),
     "pc_or_cmp": lambda k: ("or", ("pc", "PEq", (X, L(k))), ("cmp", "eq", A(X, "q"), L(5))),
 }
@@ -64,6 +65,13 @@ def cases(tier, inst):
                             if tier == "quick" and dk == "d2" and consume == "next":
                                 continue
                             yield (amb, quant, ck, head, k, dk, consume)
+    # --- blocks entered WITH a query (`with symbolic_mode(q):`, `with rule_mode(q):`, q the evaluated query or another
+    #     one): the open query block is not where expressions built by user code during the evaluation belong
+    for amb in ("query_q", "rule_q", "rule_other"):
+        for ck in CONDS:
+            for k in (1, 2):
+                for quant, head in (("an", "var"), ("the", "var"), ("infer", "ctor"), ("an", "add")):
+                    yield (amb, quant, ck, head, k, "d4", "list" if quant != "the" else "call")
     # --- selected EXPRESSIONS (attribute, index, un-nested element, concatenated value) instead of a plain variable
     for amb in AMBIENTS:
         for ck in ("cmp", "pf", "pc"):
@@ -356,7 +364,11 @@ def run_case(case, inst):
             next(it0)
             kept.append(it0)
         W.LOG.reset()
-        ctx = {"none": None, "query": symbolic_mode, "rule": rule_mode}[amb]
+        other = None
+        if amb == "rule_other":
+            other, _ = build_query(case, build_world(wspec_of(case), inst), inst)
+        ctx = {"none": None, "query": symbolic_mode, "rule": rule_mode, "query_q": lambda: symbolic_mode(q),
+               "rule_q": lambda: rule_mode(q), "rule_other": lambda: rule_mode(other)}[amb]
         notes = []
 
         def evaluate():
@@ -442,7 +454,8 @@ def describe(case, inst):
                  f"with rule_mode(q): Add(views, Made(a=x, b=x.p, c=1))"
                  + (f"\n    with alternative(x.q == {inst.v(2)}): Add(views, Made(a=x, b=x.p, c=2))" if head == "addalt" else ""))
     ev = "q.evaluate()" if quant == "the" else ("list(q.evaluate())" if consume == "list" else "it = q.evaluate(); next(it) ... until exhausted")
-    amb_s = {"none": "", "query": "with symbolic_mode(): ", "rule": "with rule_mode(): "}[amb]
+    amb_s = {"none": "", "query": "with symbolic_mode(): ", "rule": "with rule_mode(): ", "query_q": "with symbolic_mode(q): ",
+             "rule_q": "with rule_mode(q): ", "rule_other": "with rule_mode(<the same query built once more>): "}[amb]
     pre = ("\nwith symbolic_mode(): z = let(Item, DI); q0 = an(entity(z, z.p >= 1))\nit0 = q0.evaluate(); next(it0)   # stays open"
            if len(case) == 8 else "")
     return (Q.up_world(wspec_of(case), inst) + "\n" + build + pre + f"\n{amb_s}result = {ev}"
